@@ -170,6 +170,7 @@ func cmdCheck(args []string) int {
 	if cfg.Extra != nil {
 		cfg.Extra(r)
 	}
+	e.SweepConcurrency(cfg.ID)
 	tGen := time.Since(r.t0).Seconds()
 	e.Discharge(tier, filepath.Join(r.workdir, "smt"))
 	r.extraCov["vc_generation_s"] = round2(tGen)
